@@ -23,17 +23,18 @@ import (
 // projected back to message ids.
 
 type gCfg struct {
-	RtmpSubs []string `json:"rtmpSubs"`
-	FlvSubs  []string `json:"flvSubs"`
-	GopNumR  int      `json:"gopNumR"`
-	GopNumF  int      `json:"gopNumF"`
-	CapR     int      `json:"capR"`
-	CapF     int      `json:"capF"`
-	MwBytes  int      `json:"mwBytes"`
-	Record   bool     `json:"record"`
-	Ws       bool     `json:"ws"`       // HTTP-FLV consumers over WebSocket
-	LenMode  string   `json:"lenMode"`  // units | edges
-	PushSubs []string `json:"pushSubs"` // relay-push targets (gated stub RTMP servers on loopback)
+	RtmpSubs  []string `json:"rtmpSubs"`
+	FlvSubs   []string `json:"flvSubs"`
+	GopNumR   int      `json:"gopNumR"`
+	GopNumF   int      `json:"gopNumF"`
+	CapR      int      `json:"capR"`
+	CapF      int      `json:"capF"`
+	MwBytes   int      `json:"mwBytes"`
+	Record    bool     `json:"record"`
+	Ws        bool     `json:"ws"`        // HTTP-FLV consumers over WebSocket
+	LenMode   string   `json:"lenMode"`   // units | edges
+	PushSubs  []string `json:"pushSubs"`  // relay-push targets (gated stub RTMP servers on loopback)
+	HttpsOnly bool     `json:"httpsOnly"` // the HTTP-FLV server is configured for https only (enable=false, enable_https=true)
 }
 
 type gStep struct {
@@ -234,7 +235,8 @@ func runGroupScenario(sc *gScenario, tw *TraceWriter, tmp string, seed int64) {
 	cfg.RtmpConfig.GopNum = sc.Cfg.GopNumR
 	cfg.RtmpConfig.SingleGopMaxFrameNum = sc.Cfg.CapR
 	cfg.RtmpConfig.MergeWriteSize = sc.Cfg.MwBytes
-	cfg.HttpflvConfig.Enable = true
+	cfg.HttpflvConfig.Enable = !sc.Cfg.HttpsOnly
+	cfg.HttpflvConfig.EnableHttps = sc.Cfg.HttpsOnly
 	cfg.HttpflvConfig.GopNum = sc.Cfg.GopNumF
 	cfg.HttpflvConfig.SingleGopMaxFrameNum = sc.Cfg.CapF
 	recDir := filepath.Join(tmp, fmt.Sprintf("rec%d", sc.Sc))
